@@ -288,6 +288,14 @@ func ruleC09StateOnce(p *Prog, a *Anchors, r *Report) {
 				n++
 				key := p.FuncName(f) + ":fresh-state"
 				absent := Guarded(in, func(cond ssa.Value, pol bool) bool {
+					// `state, ok := ctx.getNodeState(node).(*T)`: not ok means nothing (of that type) is stored
+					if ex, isEx := cond.(*ssa.Extract); isEx && ex.Index == 1 && !pol {
+						if ta, isTA := ex.Tuple.(*ssa.TypeAssert); isTA && ta.CommaOk {
+							if c, isC := ta.X.(*ssa.Call); isC && c.Common().StaticCallee() != nil && c.Common().StaticCallee().Name() == "getNodeState" {
+								return true
+							}
+						}
+					}
 					x, eq, isNil := condIsNilTest(cond)
 					if !isNil || eq != pol {
 						return false
